@@ -432,6 +432,43 @@ impl C05 {
         }
     }
 
+    /// (h) auxiliary: the 2-thread workload of examples/miri_c05.rs under Miri (undefined behaviour and data race
+    /// interpreter) with 8 scheduler seeds; anything that keeps Miri from running is inconclusive, never a violation
+    fn miri(&self, case: &Case, obs: &mut Obs) {
+        let verif = std::path::PathBuf::from(crate::core::verif_dir());
+        let first = (case.base_seed % 1000) * 8;
+        let flags = format!("-Zmiri-tree-borrows -Zmiri-disable-isolation -Zmiri-many-seeds={}..{}", first, first + 8);
+        obs.eval();
+        let out = std::process::Command::new("cargo")
+            .args(["+nightly", "miri", "run", "--offline", "--example", "miri_c05", "--", "2"])
+            .current_dir(verif.join("harness"))
+            .env("MIRIFLAGS", &flags)
+            .env("CARGO_TARGET_DIR", verif.join("target").join("miri"))
+            .env("CARGO_NET_OFFLINE", "true")
+            .stdin(std::process::Stdio::null())
+            .output();
+        let out = match out {
+            Ok(o) => o,
+            Err(e) => {
+                obs.inconclusive(&format!("miri-not-started: {}", e));
+                return;
+            }
+        };
+        let text = format!("{}\n{}", String::from_utf8_lossy(&out.stdout), String::from_utf8_lossy(&out.stderr));
+        let ok = text.matches("MIRI-C05 OK").count() as u64;
+        obs.add("miri_seeds_completed_without_report", ok);
+        obs.nontrivial(crate::rng::fnv64(flags.as_bytes()));
+        let report = text.lines().find(|l| l.contains("Undefined Behavior") || l.contains("Data race") || l.contains("data race") || l.contains("MIRI-C05 DIFFER"));
+        if let Some(l) = report {
+            let class = if l.contains("DIFFER") { "results-differ-between-threads" } else if l.to_lowercase().contains("data race") { "data-race" } else { "undefined-behaviour" };
+            let at = text.lines().skip_while(|x| *x != l).find(|x| x.trim_start().starts_with("-->")).unwrap_or("").trim().to_string();
+            obs.violation(&format!("miri:{}", class), format!("cargo miri run --example miri_c05 ({}): {} {}", flags, l.trim(), at), json!({"MIRIFLAGS": flags, "output_tail": text.chars().rev().take(3000).collect::<String>().chars().rev().collect::<String>()}));
+        } else if ok == 0 || !out.status.success() {
+            obs.inconclusive(&format!("miri-run-incomplete: exit {:?}, {} seeds completed", out.status.code(), ok));
+        }
+        obs.sample(json!({"miri": {"MIRIFLAGS": flags, "seeds_completed_without_report": ok, "exit": out.status.code()}}));
+    }
+
     /// (g) the shipped reference pairs
     fn reference(&self, case: &Case, obs: &mut Obs) {
         let pairs = crate::corpus::reference_pairs();
@@ -511,7 +548,7 @@ impl Property for C05 {
         "C05"
     }
     fn rule(&self) -> String {
-        "every convertible shipped project converted repeatedly in one process and in fresh processes with varied environment size / working directory / logging (md5 of as_json must be identical; std's per-process hash seeds and ASLR differ); 16 threads behind a barrier, each converting projects and computing indicators of shipped models in its own random order, against a sequential baseline (distinct completion-order signatures are counted); generated projects re-printed with one unrelated definition appended (material, construction, schedules, shade, a whole space with walls): every pre-existing element keeps its id; ordered pairs (A computed before B) where B is a variant of A with the same ids but other shades / zone / orientation / constructions / meta data, or an unrelated model, against B computed in a fresh process; fingerprint of the three process-wide climate tables before/after; the 6 shipped (project, reference model) pairs compared as JSON values at f32 precision; non-trivial = distinct project / interleaving signature / pair".into()
+        "every convertible shipped project converted repeatedly in one process and in fresh processes with varied environment size / working directory / logging (md5 of as_json must be identical; std's per-process hash seeds and ASLR differ); 16 threads behind a barrier, each converting projects and computing indicators of shipped models in its own random order, against a sequential baseline (distinct completion-order signatures are counted); generated projects re-printed with one unrelated definition appended (material, construction, schedules, shade, a whole space with walls): every pre-existing element keeps its id; ordered pairs (A computed before B) where B is a variant of A with the same ids but other shades / zone / orientation / constructions / meta data, or an unrelated model, against B computed in a fresh process; fingerprint of the three process-wide climate tables before/after; the 6 shipped (project, reference model) pairs compared as JSON values at f32 precision; non-trivial = distinct project / interleaving signature / pair; thorough only, auxiliary: examples/miri_c05.rs (indicators + JSON of cubo.json on the main thread, on 2 concurrent threads and again afterwards, all equal) interpreted by Miri with tree borrows under 8 scheduler seeds derived from VERIF_SEED; a Miri report (undefined behaviour, data race) or differing results is a violation, a Miri step that cannot run is inconclusive".into()
     }
     fn assumptions(&self) -> Vec<String> {
         vec![
@@ -521,6 +558,7 @@ impl Property for C05 {
     }
     fn workloads(&self, tier: Tier) -> Vec<(String, u64)> {
         vec![
+            ("miri".into(), tier.pick(0, 1)),
             ("repeat".into(), real_project_files().len() as u64),
             ("threads".into(), tier.pick(6, 60)),
             ("id-locality".into(), tier.pick(120, 4000)),
@@ -548,8 +586,13 @@ impl Property for C05 {
     fn time_cap_s(&self, tier: Tier) -> u64 {
         tier.pick(170, 2400)
     }
+    fn case_timeout_s(&self, tier: Tier) -> u64 {
+        // the Miri step interprets ~10^9 basic blocks: 10-20 minutes per seed, 8 seeds in parallel
+        tier.pick(60, 5400)
+    }
     fn run_case(&self, case: &Case, obs: &mut Obs) {
         match case.kind {
+            "miri" => self.miri(case, obs),
             "repeat" => self.repeat(case, obs),
             "threads" => self.threads(case, obs),
             "id-locality" => self.id_locality(case, obs),
